@@ -45,25 +45,25 @@ func (p *payload) TotalMemSize() int { return 16 + 8*len(p.keys) + int(p.TotalSi
 
 // session incarnation as the model sees it
 type sessModel struct {
-	sid          int
-	start, stop  int
-	next         int  // next key expected in a response
-	done         bool // a response marked done was observed
-	mayRestart   bool // the model lost track (pruned / unregistered id re-used): the first response decides
-	responses    int
-	requested    int // chunks requested in total (informative)
+	sid         int
+	start, stop int
+	next        int  // next key expected in a response
+	done        bool // a response marked done was observed
+	mayRestart  bool // the model lost track (pruned / unregistered id re-used): the first response decides
+	responses   int
+	requested   int // chunks requested in total (informative)
 }
 
 type reqRec struct {
-	peer, sid       int
-	chunks          int
-	num             int
-	size            uint64
-	got             int
-	sawDone         bool
-	expectNothing   string // non-empty: why no response is expected
-	optional        bool   // the session was pruned / its peer unregistered after the request: it may or may not be served
-	sess            *sessModel
+	peer, sid     int
+	chunks        int
+	num           int
+	size          uint64
+	got           int
+	sawDone       bool
+	expectNothing string // non-empty: why no response is expected
+	optional      bool   // the session was pruned / its peer unregistered after the request: it may or may not be served
+	sess          *sessModel
 }
 
 func RunSeeder(c *sim.Ctx) {
@@ -164,7 +164,7 @@ func RunSeeder(c *sim.Ctx) {
 	}
 
 	rec := &recorder{}
-	probes := map[string]int{}
+	probes := newProbes()
 	var simEnd time.Duration
 	trouble := runBubble(c.T, func() {
 		start := time.Now()
@@ -197,16 +197,17 @@ func RunSeeder(c *sim.Ctx) {
 		for i := range peers {
 			peers[i] = &peerModel{gone: map[int]bool{}}
 		}
+		var ml modelLock
 		var reqs []*reqRec
 		pendingReq := map[[2]int][]*reqRec{} // (peer, sid) -> requests whose responses are still expected, in order
-		maxOne := int64(0)                    // largest response memory size seen
+		maxOne := int64(0)                   // largest response memory size seen
 		misbehaviours := 0
 		expectedMisb := 0
 
 		checkPending := func(where string) {
 			p := seeder.VerifPendingResponsesSize()
 			if p >= pendingLimit {
-				probes["pending_limit_reached"]++
+				probes.inc("pending_limit_reached")
 			}
 			bound := pendingLimit + int64(16+8*(maxNum+1)+maxSize+9)
 			if p > bound {
@@ -226,6 +227,8 @@ func RunSeeder(c *sim.Ctx) {
 					if rec.failed() {
 						return nil
 					}
+					ml.mu.Lock()
+					defer ml.mu.Unlock()
 					sid := int(r.SessionID)
 					if c.Replaying() {
 						fmt.Printf("  | t=%v SendChunk p%d sid=%d keys=%v done=%v\n", now(), pi, sid, r.Payload.(*payload).keys, r.Done)
@@ -314,14 +317,14 @@ func RunSeeder(c *sim.Ctx) {
 						}
 						s.done = true
 						rq.sawDone = true
-						probes["session_finished"]++
+						probes.inc("session_finished")
 					}
 					if rq.got == rq.chunks || r.Done {
 						pendingReq[[2]int{pi, sid}] = q[1:]
 					}
 					return nil
 				},
-				Misbehaviour: func(err error) { misbehaviours++ },
+				Misbehaviour: func(err error) { ml.do(func() { misbehaviours++ }) },
 			}
 		}
 		seeder.Start()
@@ -340,6 +343,8 @@ func RunSeeder(c *sim.Ctx) {
 			}
 		}
 		outstanding = func() bool {
+			ml.mu.Lock()
+			defer ml.mu.Unlock()
 			for _, q := range pendingReq {
 				for _, r := range q {
 					if r.expectNothing == "" && !r.optional && !(r.sess.done) {
@@ -361,25 +366,27 @@ func RunSeeder(c *sim.Ctx) {
 			if s.op.A[2] == 1 {
 				drain()
 			} else if outstanding() {
-				probes["request_while_responses_in_flight"]++
+				probes.inc("request_while_responses_in_flight")
 			}
 			switch s.op.K {
 			case "unregister":
-				if len(pm.live) > 0 {
-					probes["unregister_with_sessions"]++
-				}
-				for _, sm := range pm.live {
-					pm.gone[sm.sid] = true
-				}
-				pm.live = nil
-				// requests still queued for this peer's sessions may or may not be served any more
-				for k, q := range pendingReq {
-					if k[0] == pi {
-						for _, r := range q {
-							r.optional = true
+				ml.do(func() {
+					if len(pm.live) > 0 {
+						probes.inc("unregister_with_sessions")
+					}
+					for _, sm := range pm.live {
+						pm.gone[sm.sid] = true
+					}
+					pm.live = nil
+					// requests still queued for this peer's sessions may or may not be served any more
+					for k, q := range pendingReq {
+						if k[0] == pi {
+							for _, r := range q {
+								r.optional = true
+							}
 						}
 					}
-				}
+				})
 				_ = seeder.UnregisterPeer(fmt.Sprintf("p%d", pi))
 				settle(time.Millisecond) // the idle reader takes the unregistration before the next stimulus is queued
 			case "request":
@@ -393,22 +400,24 @@ func RunSeeder(c *sim.Ctx) {
 				// right only if the reader is not lagging behind for this peer; requests that resume a live session,
 				// and requests of other peers, may arrive while responses are still in flight
 				creates := true
-				for _, l := range pm.live {
-					if l.sid == sid {
-						creates = false
-					}
-				}
 				busy := false // requests of this very peer still being served?
-				for k, q := range pendingReq {
-					if k[0] != pi {
-						continue
-					}
-					for _, r := range q {
-						if r.expectNothing == "" && !r.optional && !r.sess.done {
-							busy = true
+				ml.do(func() {
+					for _, l := range pm.live {
+						if l.sid == sid {
+							creates = false
 						}
 					}
-				}
+					for k, q := range pendingReq {
+						if k[0] != pi {
+							continue
+						}
+						for _, r := range q {
+							if r.expectNothing == "" && !r.optional && !r.sess.done {
+								busy = true
+							}
+						}
+					}
+				})
 				if creates && busy && s.op.A[2] != 1 {
 					drain()
 				}
@@ -424,7 +433,7 @@ func RunSeeder(c *sim.Ctx) {
 						Session: basestream.Session{ID: uint32(sid), Start: loc(st), Stop: loc(sp)}, MaxPayloadNum: uint32(num), MaxPayloadSize: size, MaxChunks: uint32(chunks)})
 				}
 				if chunks > maxChunks {
-					probes["too_many_chunks"]++
+					probes.inc("too_many_chunks")
 					err, peerErr := notify()
 					if err != nil {
 						rec.violation("seeder-error", "seeder-error", "NotifyRequestReceived: %v", err)
@@ -435,6 +444,7 @@ func RunSeeder(c *sim.Ctx) {
 				}
 				// the model takes the request before the call: the seeder's reader and senders may run (and answer)
 				// while NotifyRequestReceived is still handing the request over
+				ml.mu.Lock()
 				var sm *sessModel
 				for _, l := range pm.live {
 					if l.sid == sid {
@@ -442,21 +452,21 @@ func RunSeeder(c *sim.Ctx) {
 					}
 				}
 				if sm != nil {
-					probes["session_resumed"]++
+					probes.inc("session_resumed")
 					if len(pm.live) == 3 {
-						probes["resume_while_holding_three"]++
+						probes.inc("resume_while_holding_three")
 					}
 					if sm.start != st {
-						probes["selector_mismatch"]++
+						probes.inc("selector_mismatch")
 						expectedMisb++
 						rq.expectNothing = "selector mismatch"
 					}
 					if sm.done {
-						probes["request_after_done"]++
+						probes.inc("request_after_done")
 					}
 				} else {
 					if len(pm.live) == 3 {
-						probes["fourth_session_prunes_oldest"]++
+						probes.inc("fourth_session_prunes_oldest")
 						pm.gone[pm.live[0].sid] = true
 						// requests still outstanding for the pruned session need not be served any more
 						for _, r := range pendingReq[[2]int{pi, pm.live[0].sid}] {
@@ -480,6 +490,7 @@ func RunSeeder(c *sim.Ctx) {
 				}
 				// a request that must not be served (changed start, session already done) is not queued: a
 				// response without an outstanding request is reported as such
+				ml.mu.Unlock()
 				err, peerErr := notify()
 				if err != nil {
 					rec.violation("seeder-error", "seeder-error", "NotifyRequestReceived: %v", err)
@@ -497,6 +508,7 @@ func RunSeeder(c *sim.Ctx) {
 		drain()
 		// ---- every served request got all its chunks or ended with done ----
 		if !rec.failed() {
+			ml.mu.Lock()
 			if misbehaviours != expectedMisb {
 				rec.violation("seeder-misbehaviour", "seeder-misbehaviour", "Misbehaviour reported %d times, %d requests changed the start of a live session", misbehaviours, expectedMisb)
 			}
@@ -508,11 +520,12 @@ func RunSeeder(c *sim.Ctx) {
 					rec.violation("seeder-liveness", "seeder-liveness", "session %d of p%d [%d,%d): a request for %d chunks received %d responses and none was marked done (next item due: %d)", k[1], k[0], rq.sess.start, rq.sess.stop, rq.chunks, rq.got, rq.sess.next)
 				}
 			}
+			ml.mu.Unlock()
 		}
 		simEnd = now()
 		seeder.Stop()
 	})
-	for k, v := range probes {
+	for k, v := range probes.snapshot() {
 		for i := 0; i < v; i++ {
 			c.Probe(k)
 		}
